@@ -51,9 +51,10 @@ func (g *Generator) SpecFile(fileContent []byte) GoFile {
 
 func encodeRawFileAsString(s string) string {
 	if strings.Contains(string(s), "\n") {
-		s = "`" + strings.ReplaceAll(string(s), "`", "`+\"`\"+`") + "`"
+		// a raw string literal cannot hold a backtick, drops carriage returns and rejects a byte order mark
+		s = "`" + strings.NewReplacer("`", "`+\"`\"+`", "\r", "`+\"\\r\"+`", "\uFEFF", "`+\"\\ufeff\"+`").Replace(string(s)) + "`"
 	} else {
-		s = `"` + strings.ReplaceAll(string(s), `"`, `\"`) + `"`
+		s = `"` + strings.NewReplacer(`\`, `\\`, `"`, `\"`, "\uFEFF", `\ufeff`).Replace(string(s)) + `"`
 	}
 	return s
 }
